@@ -50,6 +50,7 @@ class BlockPartition(object):
         # Store attributes
         self.d = d
         self.list_of_constraints = list()
+        self._list_of_orthogonality_constraints = list()
         self.blocks_dict = dict()
         self.counter = BlockPartition.counter
 
@@ -123,8 +124,17 @@ class BlockPartition(object):
         Formulate the list of orthogonality constraints induced by the partitioning.
 
         """
+        # Remove the orthogonality constraints generated for a previous solve: they are regenerated below,
+        # so that solving again does not send them twice.
+        self.list_of_constraints = [constraint for constraint in self.list_of_constraints
+                                    if not any(constraint is old_constraint
+                                               for old_constraint in self._list_of_orthogonality_constraints)]
+        self._list_of_orthogonality_constraints = list()
+
         for xi_decomposed in self.blocks_dict.values():
             for xj_decomposed in self.blocks_dict.values():
                 for k in range(self.d):
                     for l in range(k):
-                        self.add_constraint(xi_decomposed[k] * xj_decomposed[l] == 0)
+                        constraint = (xi_decomposed[k] * xj_decomposed[l] == 0)
+                        self.add_constraint(constraint)
+                        self._list_of_orthogonality_constraints.append(constraint)
